@@ -147,7 +147,8 @@ def gen_definition(rng, max_fields=6, form=None, pos_mode=None, kinds=None, file
         ty = rng.choice(kinds)
         elem = rng.choice(["str", "str", "int", "path"]) if ty in ("list", "multi") else None
         others = [f["name"] for f in fields if f["ty"] in ("str", "int")]
-        f = {"name": nm, "ty": ty, "elem": elem, "optional": ty != "bool" and rng.random() < 0.6,
+        # every kind comes in a plain and an Optional (`T | None`, default None) variant -- flags included
+        f = {"name": nm, "ty": ty, "elem": elem, "optional": rng.random() < (0.4 if ty == "bool" else 0.6),
              "argstr": gen_argstr(rng, ty, nm, others), "pos": pos[i],
              "sep": rng.choice(SEPS) if ty in ("list", "multi") else " ",
              "file": bool(file_dir) and (ty == "path" or elem == "path") and rng.random() < 0.35}
@@ -182,10 +183,10 @@ def gen_values(rng, case, nasty=0.0, braces=0.0, falsy=0.05, unset=0.3):
     vals = {}
     for f in case["fields"]:
         ty = f["ty"]
-        if ty == "bool":
-            vals[f["name"]] = rng.random() < 0.6
-        elif f["optional"] and rng.random() < unset:
+        if f["optional"] and rng.random() < unset:
             vals[f["name"]] = None
+        elif ty == "bool":
+            vals[f["name"]] = rng.random() < 0.6
         elif ty in ("list", "multi"):
             n = rng.choice([0, 1, 2, 2, 3]) if f["optional"] or ty == "list" else rng.choice([1, 2, 3])
             vals[f["name"]] = {"list": [gen_atom(rng, f["elem"], nasty, braces if f["argstr"] and any(
@@ -269,10 +270,10 @@ def _arg_kwargs(f):
     kw = dict(argstr=render_argstr(f), sep=f["sep"])
     if f["pos"] is not None:
         kw["position"] = f["pos"]
-    if f["ty"] == "bool":
-        kw["default"] = False
-    elif f["optional"]:
+    if f["optional"]:
         kw["default"] = None
+    elif f["ty"] == "bool":
+        kw["default"] = False
     return kw
 
 
@@ -418,7 +419,8 @@ def enc_sargstr(a):
 
 
 def enc_sfield(f):
-    return "(mkS %s %s %s %s %s)" % (L(f["name"]), TY[f["ty"]], enc_sargstr(f["argstr"]),
+    ty = "(TOpt %s)" % TY[f["ty"]] if f["optional"] else TY[f["ty"]]
+    return "(mkS %s %s %s %s %s)" % (L(f["name"]), ty, enc_sargstr(f["argstr"]),
                                       coqio.option(None if f["pos"] is None else coqio.z(f["pos"])), L(f["sep"]))
 
 
